@@ -3,7 +3,7 @@ import itertools, os, re
 import vlib
 from vlib import Check, Stream, hexs
 from checks.murmur import murmur3_32
-from checks.c05 import py_atoll, unhex, kop, INT64_MIN, INT64_MAX, FULL_COLLISIONS, VS_LENGTHS, vs_value
+from checks.c05 import py_atoll, unhex, kop, INT64_MIN, INT64_MAX, FULL_COLLISIONS, VS_LENGTHS, VS_SWEEP, vs_value
 
 WS = b" \t\r\n"
 ENTRY = re.compile(r"^([0-9a-f]+|-)\(([0-9a-f]{8})\)=([0-9a-f]+|-)$")
@@ -399,13 +399,13 @@ class TheCheck(Check):
         ops = []
         for o in ("0 0 0 0", "1 0 0 0", "1 1 1 1"):
             ops.append("new " + o)
-            for i, n in enumerate(VS_LENGTHS):
+            for i, n in enumerate(VS_SWEEP if o == "1 0 0 0" else VS_LENGTHS):
                 k = b"p%d" % (i % 3)
                 ops += [kop("putstrf", k, hexs(vs_value(n, i))), kop("getstr", k), kop("getmulti", k, "1")]
                 if i % 3 == 2:
                     ops += ["clear"]
             ops += ["walk 0", "clear"]
-        sts.append(Stream("putstrf-lengths", ops, history=True, note="formatted lengths 1000..1025, 2040..2050, 4090..4100, 5000, 10000"))
+        sts.append(Stream("putstrf-lengths", ops, history=True, note="every formatted length 0..2100, 4090..4100, 5000, 8191..8193, 10000"))
 
         # 5. save / load
         ops = ["new 0 0 0 0"]
